@@ -893,6 +893,11 @@ fn run_inst<T: Sc>(line: &Line, idx: usize, pools: &Pools, opts: &Opts, rep: &mu
             rep.check("C11", obs_bits_eq(&before, &after) && bits_eq(&pb, &conv.params()) && !conv.is_par(), 0.0, || {
                 json!({"flavour": flav, "what": "into_sequential changed the state"})
             });
+            let back = conv.into_par();
+            let again = pool.install(|| observe(back.as_ref()));
+            rep.check("C11", obs_bits_eq(&before, &again) && bits_eq(&pb, &back.params()), 0.0, || {
+                json!({"flavour": flav, "what": "into_parallel changed the state"})
+            });
         }
     }
     let _ = opts.only_f64;
